@@ -232,6 +232,27 @@ pub fn render(f: &AFile) -> String {
             let v: Vec<String> = v.split('+').map(q).collect();
             t.push_str(&format!("tls_versions = [{}]\n", v.join(", ")));
         }
+        if l.x.contains_key("a404") {
+            t.push_str(&format!("answer_404 = {}\n", q(&format!("{ASSETS}/README.md"))));
+        }
+        if viol == "missing-answer-file" && first {
+            t.push_str("answers = { \"500\" = \"file:///nonexistent/verif-answer.txt\" }\n");
+        } else if let Some(spec) = l.x.get("ans") {
+            // 404=L~text + 503=F~asset + 502=E  (literal / file:// / empty)
+            let items: Vec<String> = spec
+                .split('+')
+                .filter_map(|e| {
+                    let (code, v) = e.split_once('=')?;
+                    let val = match v.split_once('~') {
+                        Some(("L", t)) => t.to_string(),
+                        Some(("F", a)) => format!("file://{ASSETS}/{a}"),
+                        _ => String::new(),
+                    };
+                    Some(format!("{} = {}", q(code), q(&val)))
+                })
+                .collect();
+            t.push_str(&format!("answers = {{ {} }}\n", items.join(", ")));
+        }
         for (k, tk, quoted) in LISTENER_OPTS {
             if let Some(v) = l.x.get(k) {
                 t.push_str(&format!("{tk} = {}\n", if quoted { q(v) } else { v.clone() }));
@@ -248,6 +269,9 @@ pub fn render(f: &AFile) -> String {
             t.push_str("protocol = \"udp\"\n");
         } else {
             t.push_str(&format!("protocol = {}\n", q(if c.tcp { "tcp" } else { "http" })));
+        }
+        if viol == "missing-cluster-answer-503" && first {
+            t.push_str("answer_503 = \"/nonexistent/verif-503.html\"\n");
         }
         if viol == "unknown-cluster-field" && first {
             t.push_str("no_such_field = 1\n");
